@@ -1416,10 +1416,14 @@ namespace awkward {
     /// RegularArray nodes to satisfy a given `shape`.
     ///
     /// The `shape` is intended to match a
-    /// {@link SliceArrayOf#shape SliceArray::shape}.
+    /// {@link SliceArrayOf#shape SliceArray::shape}; `outer_length` is the
+    /// number of lists the array item was applied to (the length of the
+    /// outermost RegularArray, which cannot be derived from the content when
+    /// a dimension of the `shape` is zero).
     const ContentPtr
       getitem_next_array_wrap(const ContentPtr& outcontent,
-                              const std::vector<int64_t>& shape) const;
+                              const std::vector<int64_t>& shape,
+                              int64_t outer_length) const;
 
     /// @brief Internal function to convert #parameters into a string fragment
     /// for #tostring.
